@@ -19,6 +19,7 @@ META_EXTRA = 'S2/S3 decided in both orderings left open by lower_bound; S7 (inse
 META = (META[0] + " " + META_EXTRA, META[1])
 META = (META[0] + ' SIB; INITFORM (emplace direct-non-list-initialises the key).', META[1])
 META = (META[0] + ' S6 with the emptied postcondition of extract(); ERASECNT.', META[1])
+META = (META[0] + ' S8 (the iterator returned for a new element is the lower_bound position); EQRANGE.', META[1])
 
 
 def run(chk, tier):
